@@ -363,6 +363,16 @@ def r4(mods):
     hook_cls = find_class(tree, "RequestsHook")
     ok = any(isinstance(n, ast.Call) and src(n.func) == "self._fail_safe.handle_on" for n in ast.walk(hook_cls)) if hook_cls else False
     check(ok, "R4", "hook/registers-connection-errors", rel(path), "the hook registers its connection-error type with the fail-safe")
+    # ... and only connection-level ones: a timeout while reading the provider's answer through a healthy
+    # gateway is the provider's slowness, not a gateway failure (reviewed set per hook)
+    allowed = {"requests.ConnectionError"}
+    for n in (ast.walk(hook_cls) if hook_cls else []):
+        if isinstance(n, ast.Call) and src(n.func) == "self._fail_safe.handle_on" and n.args:
+            arg = n.args[0]
+            elems = [src(e) for e in arg.elts] if isinstance(arg, (ast.Tuple, ast.List)) else [src(arg)]
+            extra = sorted(set(elems) - allowed)
+            check(not extra and bool(elems), "R4", "hook/handled-exceptions-are-connection-level", loc(path, n),
+                  f"exceptions counted as gateway failures: {elems}; beyond the reviewed connection-level set: {extra}")
 
 
 # ---- R5 no raise from the decision ----
